@@ -3,7 +3,7 @@
    nat, Z, positive, string, ascii stay the extracted inductives.  No Extract Constant. *)
 From Coq Require Extraction ExtrOcamlBasic.
 From Coq Require Import ZArith.
-From PS Require Import Base Str Bag RegAccess Sim Program Isa Graph Loader Errors Cli Diag QueueSpec LoaderSpec Domain.
+From PS Require Import Base Str Bag RegAccess Sim Program Isa Graph Loader Errors Flow Cli Diag QueueSpec LoaderSpec Domain.
 Extraction Language OCaml.
 Set Extraction Optimize.
 Extraction "../ocaml/model.ml"
@@ -15,6 +15,7 @@ Extraction "../ocaml/model.ml"
   Isa.load_isa Isa.get_abilities Isa.compile_program
   Loader.load_proc_desc Loader.make_desc
   Errors.load_err_msgs Errors.isa_err_msg Errors.comp_err_msg
+  Flow.flow_setup Flow.port_flows Flow.chk_flow_detailed Loader.chk_flow Graph.add_node Graph.add_edge Graph.g_empty Graph.edges
   Cli.sim_rows Cli.print_table
   Domain.wf_domainb Domain.C11_error_okw Diag.wf_procb Diag.wf_progb Diag.C01_order_checkb Diag.C01_replay_checkb Diag.C02_checkb Diag.C03_checkb
   Diag.C04_checkb Diag.C05_checkb Diag.C06_checkb Diag.C07_checkb Diag.C08_checkb
